@@ -1,7 +1,7 @@
 """C11 — KwikSort's result is pivot-independent when pairwise preferences cohere."""
 import random
 from hypothesis import strategies as st
-from vlib import gen, lib, oracle
+from vlib import gen, lib, oracle, mutate
 from vlib.harness import HypSub
 from vlib.lib import Violation
 from checks.common_alg import well_formed
@@ -157,16 +157,18 @@ def small_cases(draw, tier):
     mx = 6 if tier == "thorough" else 5
     scheme = draw(gen.dyadic_schemes())
     ds = draw(gen.datasets(max_n=mx, min_n=2, max_m=4, shapes=SHAPES_ANY + SHAPES_COH))
-    return {"scheme": scheme, "dataset": ds}
+    return {"scheme": scheme, "dataset": ds, "via_mutation": draw(mutate.via_strategy(ds["rankings"], p=4))}
 
 
 def check_all_schedules(case, ctx):
     rankings, scheme = case["dataset"]["rankings"], case["scheme"]
-    d, s = lib.mk_dataset(rankings), lib.mk_scheme(scheme)
+    s = lib.mk_scheme(scheme)
     inst = oracle.Instance(rankings, scheme)
     P = relation(inst)
     induced = coherent_order(inst, P)
     drv = Driver()
+    # the Dataset object may have been used by the SAME KwikSort instance and then mutated in place
+    d = mutate.build(rankings, case.get("via_mutation"), lambda d0: drv.alg.compute_consensus_rankings(d0, s, True))
     schedule, leaves, controlled = [], 0, True
     results = set()
     while schedule is not None and leaves < 800:
@@ -209,6 +211,7 @@ def check_sampled(case, ctx):
             raise lib.HarnessError("oracle: identical rankings %s with T0>0,B2>0 should induce themselves, got %s" % (
                 rankings[0], induced))
     drv = Driver()
+    d = mutate.build(rankings, case.get("via_mutation"), lambda d0: drv.alg.compute_consensus_rankings(d0, s, True))
     for k, sch in enumerate(case["schedules"]):
         run_one(drv, d, s, inst, P, induced, rankings, sch, "schedule %s" % sch, seed=k)
     ctx.stats.case(case, induced is not None and len(induced) >= 3,
@@ -222,7 +225,8 @@ def any_cases(draw, tier):
     scheme = draw(gen.dyadic_schemes())
     ds = draw(gen.datasets(max_n=mx, min_n=2, max_m=5, shapes=SHAPES_ANY))
     scheds = [draw(st.lists(st.integers(0, 11), min_size=0, max_size=12)) for _ in range(3)]
-    return {"scheme": scheme, "dataset": ds, "schedules": scheds}
+    return {"scheme": scheme, "dataset": ds, "schedules": scheds,
+            "via_mutation": draw(mutate.via_strategy(ds["rankings"], p=4))}
 
 
 def subchecks():
